@@ -1056,4 +1056,246 @@ theorem rawCall_exists_settled (v : Gen.Variant) (k : Sink) (d : Decoder (famOfV
   case finished => exact absurd rfl hnf
   all_goals cases hs
 
+theorem dgood_quiet {F : Fam} (k : Sink) (cap n : Nat) (d : Decoder F) :
+    DGood k cap (.ok .inputEmpty n [] d [] : DRes F) := trivial
+
+theorem second_exists (v : Gen.Variant) (k : Sink) (d : Decoder (famOfVariant v)) (hd : LifeInv v d)
+    (src : List Nat) (hb : ∀ b ∈ src, b < 256) (last : Bool) (cap : Nat) (hcap : minCap k ≤ cap)
+    (offset : Nat) (rest : List Nat)
+    (h : (offset = 1 ∧ d.life = .seenUtf8First) ∨ (offset ≠ 1 ∧ (d.life = .atStart ∨ d.life = .atUtf8Start))) :
+    ∃ b1 b2, DGood k cap (Decoder.rawCall.seenUtf8Second k d src last b1 b2 offset rest) := by
+  have hl := leaf_exists v k d hd src hb last cap hcap
+  have hleaf : ∃ b1 b2, DGood k cap
+      (if offset = 1 then afterOne k d.cur src last 0xEF b1 b2 else checkingEnd k d.cur src last b2 0 [] []) := by
+    rcases h with ⟨h1, h2⟩ | ⟨h1, h2⟩
+    · obtain ⟨b1, b2, hg⟩ := hl.2.2.2.1 0xEF (by rw [h2]; rfl)
+      exact ⟨b1, b2, by simp only [h1, if_true]; exact hg⟩
+    · obtain ⟨b2, hg⟩ := hl.1 0
+      exact ⟨.unlimited, b2, by simp only [h1, if_false]; exact hg⟩
+  rcases rest with _ | ⟨x, r⟩
+  · cases last with
+    | true =>
+      obtain ⟨b1, b2, hg⟩ := hleaf
+      exact ⟨b1, b2, hg⟩
+    | false => exact ⟨.unlimited, .unlimited, dgood_quiet k cap _ _⟩
+  · by_cases hx : x = 0xBF
+    · subst hx
+      obtain ⟨b2, hg⟩ := hl.2.1 (offset + 1)
+      exact ⟨.unlimited, b2, hg⟩
+    · obtain ⟨b1, b2, hg⟩ := hleaf
+      refine ⟨b1, b2, ?_⟩
+      unfold Decoder.rawCall.seenUtf8Second
+      split
+      · rename_i heq; cases heq
+      · rename_i heq; injection heq with h1 _; exact absurd h1 hx
+      · exact hg
+
+theorem first_exists (v : Gen.Variant) (k : Sink) (d : Decoder (famOfVariant v)) (hd : LifeInv v d)
+    (src : List Nat) (hb : ∀ b ∈ src, b < 256) (last : Bool) (cap : Nat) (hcap : minCap k ≤ cap)
+    (rest : List Nat) (h : d.life = .atStart ∨ d.life = .atUtf8Start) :
+    ∃ b1 b2, DGood k cap (Decoder.rawCall.seenUtf8First k d src last b1 b2 rest) := by
+  have hl := leaf_exists v k d hd src hb last cap hcap
+  rcases rest with _ | ⟨x, r⟩
+  · cases last with
+    | true =>
+      obtain ⟨b2, hg⟩ := hl.1 0
+      exact ⟨.unlimited, b2, hg⟩
+    | false => exact ⟨.unlimited, .unlimited, dgood_quiet k cap _ _⟩
+  · by_cases hx : x = 0xBB
+    · subst hx
+      exact second_exists v k d hd src hb last cap hcap 2 r (Or.inr ⟨by decide, h⟩)
+    · obtain ⟨b2, hg⟩ := hl.1 0
+      refine ⟨.unlimited, b2, ?_⟩
+      unfold Decoder.rawCall.seenUtf8First
+      split
+      · rename_i heq; cases heq
+      · rename_i heq; injection heq with h1 _; exact absurd h1 hx
+      · exact hg
+
+theorem first16_exists (v : Gen.Variant) (k : Sink) (d : Decoder (famOfVariant v)) (hd : LifeInv v d)
+    (src : List Nat) (hb : ∀ b ∈ src, b < 256) (last : Bool) (cap : Nat) (hcap : minCap k ≤ cap)
+    (be : Bool) (rest : List Nat) :
+    ∃ b2, DGood k cap (Decoder.rawCall.seenUtf16First k d src last b2 be rest) := by
+  have hl := leaf_exists v k d hd src hb last cap hcap
+  rcases rest with _ | ⟨x, r⟩
+  · cases last with
+    | true => exact hl.1 0
+    | false => exact ⟨.unlimited, dgood_quiet k cap _ _⟩
+  · by_cases hx : x = (if be then 0xFF else 0xFE)
+    · obtain ⟨b2, hg⟩ := hl.2.2.1 be 2
+      refine ⟨b2, ?_⟩
+      unfold Decoder.rawCall.seenUtf16First
+      simp only []
+      rw [if_pos hx]
+      exact hg
+    · obtain ⟨b2, hg⟩ := hl.1 0
+      refine ⟨b2, ?_⟩
+      unfold Decoder.rawCall.seenUtf16First
+      simp only []
+      rw [if_neg hx]
+      exact hg
+
+/-- **`Decoder.rawCall`, all life-cycle states**: for every decoder reachable from `Decoder.new`
+(`LifeInv`) that is not finished, every source, `last` flag and every destination of at least
+`minCap`, budgets exist for which the call does not reach the replay panic and every inner
+variant-decoder call is admissible (`Thm.C07.InnerAdmissible`, what the driver checks). -/
+theorem rawCall_exists (v : Gen.Variant) (k : Sink) (d : Decoder (famOfVariant v)) (hd : LifeInv v d)
+    (hnf : d.life ≠ .finished)
+    (src : List Nat) (hb : ∀ b ∈ src, b < 256) (last : Bool) (cap : Nat) (hcap : minCap k ≤ cap) :
+    ∃ b1 b2, DGood k cap (d.rawCall k src last b1 b2) := by
+  have hl := leaf_exists v k d hd src hb last cap hcap
+  by_cases hs : sniffingLife d.life = false
+  · exact rawCall_exists_settled v k d hd hs hnf src hb last cap hcap
+  obtain ⟨life, c⟩ := d
+  cases life
+  case converting => exact absurd rfl hs
+  case convertingWithPendingBB => exact absurd rfl hs
+  case finished => exact absurd rfl hs
+  case atStart =>
+    rcases src with _ | ⟨x, r⟩
+    · exact ⟨.unlimited, .unlimited, dgood_quiet k cap _ _⟩
+    · by_cases h1 : x = 0xEF
+      · subst h1
+        exact first_exists v k _ hd _ hb last cap hcap r (Or.inl rfl)
+      · by_cases h2 : x = 0xFE
+        · subst h2
+          obtain ⟨b2, hg⟩ := first16_exists v k _ hd _ hb last cap hcap true r
+          exact ⟨.unlimited, b2, hg⟩
+        · by_cases h3 : x = 0xFF
+          · subst h3
+            obtain ⟨b2, hg⟩ := first16_exists v k _ hd _ hb last cap hcap false r
+            exact ⟨.unlimited, b2, hg⟩
+          · obtain ⟨b2, hg⟩ := hl.1 0
+            refine ⟨.unlimited, b2, ?_⟩
+            unfold Decoder.rawCall
+            simp only []
+            split
+            · rename_i heq; cases heq
+            · rename_i heq; injection heq with h' _; exact absurd h' h1
+            · rename_i heq; injection heq with h' _; exact absurd h' h2
+            · rename_i heq; injection heq with h' _; exact absurd h' h3
+            · exact hg
+  case atUtf8Start =>
+    rcases src with _ | ⟨x, r⟩
+    · exact ⟨.unlimited, .unlimited, dgood_quiet k cap _ _⟩
+    · by_cases h1 : x = 0xEF
+      · subst h1
+        exact first_exists v k _ hd _ hb last cap hcap r (Or.inr rfl)
+      · obtain ⟨b2, hg⟩ := hl.1 0
+        refine ⟨.unlimited, b2, ?_⟩
+        unfold Decoder.rawCall
+        simp only []
+        split
+        · rename_i heq; cases heq
+        · rename_i heq; injection heq with h' _; exact absurd h' h1
+        · exact hg
+  case atUtf16BeStart =>
+    rcases src with _ | ⟨x, r⟩
+    · exact ⟨.unlimited, .unlimited, dgood_quiet k cap _ _⟩
+    · by_cases h1 : x = 0xFE
+      · subst h1
+        obtain ⟨b2, hg⟩ := first16_exists v k _ hd _ hb last cap hcap true r
+        exact ⟨.unlimited, b2, hg⟩
+      · obtain ⟨b2, hg⟩ := hl.1 0
+        refine ⟨.unlimited, b2, ?_⟩
+        unfold Decoder.rawCall
+        simp only []
+        split
+        · rename_i heq; cases heq
+        · rename_i heq; injection heq with h' _; exact absurd h' h1
+        · exact hg
+  case atUtf16LeStart =>
+    rcases src with _ | ⟨x, r⟩
+    · exact ⟨.unlimited, .unlimited, dgood_quiet k cap _ _⟩
+    · by_cases h1 : x = 0xFF
+      · subst h1
+        obtain ⟨b2, hg⟩ := first16_exists v k _ hd _ hb last cap hcap false r
+        exact ⟨.unlimited, b2, hg⟩
+      · obtain ⟨b2, hg⟩ := hl.1 0
+        refine ⟨.unlimited, b2, ?_⟩
+        unfold Decoder.rawCall
+        simp only []
+        split
+        · rename_i heq; cases heq
+        · rename_i heq; injection heq with h' _; exact absurd h' h1
+        · exact hg
+  case seenUtf8First =>
+    have hone := hl.2.2.2.1 0xEF rfl
+    rcases src with _ | ⟨x, r⟩
+    · cases last with
+      | true => exact hone
+      | false => exact ⟨.unlimited, .unlimited, dgood_quiet k cap _ _⟩
+    · by_cases h1 : x = 0xBB
+      · subst h1
+        exact second_exists v k _ hd _ hb last cap hcap 1 r (Or.inl ⟨rfl, rfl⟩)
+      · obtain ⟨b1, b2, hg⟩ := hone
+        refine ⟨b1, b2, ?_⟩
+        unfold Decoder.rawCall
+        simp only []
+        split
+        · rename_i heq; cases heq
+        · rename_i heq; injection heq with h' _; exact absurd h' h1
+        · exact hg
+  case seenUtf8Second =>
+    have htwo := hl.2.2.2.2 rfl
+    rcases src with _ | ⟨x, r⟩
+    · cases last with
+      | true => exact htwo
+      | false => exact ⟨.unlimited, .unlimited, dgood_quiet k cap _ _⟩
+    · by_cases h1 : x = 0xBF
+      · subst h1
+        obtain ⟨b2, hg⟩ := hl.2.1 1
+        exact ⟨.unlimited, b2, hg⟩
+      · obtain ⟨b1, b2, hg⟩ := htwo
+        refine ⟨b1, b2, ?_⟩
+        unfold Decoder.rawCall
+        simp only []
+        split
+        · rename_i heq; cases heq
+        · rename_i heq; injection heq with h' _; exact absurd h' h1
+        · exact hg
+  case seenUtf16BeFirst =>
+    have hone := hl.2.2.2.1 0xFE rfl
+    rcases src with _ | ⟨x, r⟩
+    · cases last with
+      | true => exact hone
+      | false => exact ⟨.unlimited, .unlimited, dgood_quiet k cap _ _⟩
+    · by_cases h1 : x = 0xFF
+      · subst h1
+        obtain ⟨b2, hg⟩ := hl.2.2.1 true 1
+        exact ⟨.unlimited, b2, hg⟩
+      · obtain ⟨b1, b2, hg⟩ := hone
+        refine ⟨b1, b2, ?_⟩
+        unfold Decoder.rawCall
+        simp only []
+        split
+        · rename_i heq; cases heq
+        · rename_i heq; injection heq with h' _; exact absurd h' h1
+        · exact hg
+  case seenUtf16LeFirst =>
+    have hone := hl.2.2.2.1 0xFF rfl
+    rcases src with _ | ⟨x, r⟩
+    · cases last with
+      | true => exact hone
+      | false => exact ⟨.unlimited, .unlimited, dgood_quiet k cap _ _⟩
+    · by_cases h1 : x = 0xFE
+      · subst h1
+        obtain ⟨b2, hg⟩ := hl.2.2.1 false 1
+        exact ⟨.unlimited, b2, hg⟩
+      · obtain ⟨b1, b2, hg⟩ := hone
+        refine ⟨b1, b2, ?_⟩
+        unfold Decoder.rawCall
+        simp only []
+        split
+        · rename_i heq; cases heq
+        · rename_i heq; injection heq with h' _; exact absurd h' h1
+        · exact hg
+
+/-- for decoders reachable from `new_decoder*` by any history of calls -/
+theorem rawCall_exists_reachable (v : Gen.Variant) (bom : BomHandling) (k : Sink) (d : Decoder (famOfVariant v))
+    (hr : DReach v bom d) (hnf : d.life ≠ .finished)
+    (src : List Nat) (hb : ∀ b ∈ src, b < 256) (last : Bool) (cap : Nat) (hcap : minCap k ≤ cap) :
+    ∃ b1 b2, DGood k cap (d.rawCall k src last b1 b2) :=
+  rawCall_exists v k d (lifeInv_reachable v bom d hr) hnf src hb last cap hcap
+
 end EncodingRs.Thm.C06Exists
